@@ -157,6 +157,9 @@ fn sync_states(cfg: &Cfg) {
 /// (main) so that it lands at every scheduling point of the suspending context.
 ///  kind: 0 future_desync  1 after  2 future_sync (awaited)  3 suspend-style oneshot via future_desync
 ///  ctx: 0 pool thread (detached, pool>=1)  1 thread inside sync draining (pool 0)  2 task polling the returned future
+///       3 a pool thread polls first and suspends the queue, then every pool thread is pinned by other objects' blocking jobs:
+///         the wake-up must reach the thread blocked in sync behind the operation, which takes the queue over (the earlier
+///         wake-ups of `wake`=1/2 have already notified that thread once, at a moment when there was nothing for it to do)
 ///  wake: 0 single  1 repeated (poke, poke, open)  2 stale waker from an earlier poll fires too
 fn wake_ctx(cfg: &Cfg) {
     let pool = cfg.pool();
@@ -188,7 +191,34 @@ fn wake_ctx(cfg: &Cfg) {
         _ => panic!("bad kind"),
     }
     // the marker behind it
-    if ctx == 1 {
+    let bg = BGate::new();
+    let mut pins: Vec<Obj> = vec![];
+    if ctx == 3 {
+        let (w1, q1) = (w.clone(), q.clone());
+        hs.push(spawn(move || { w1.sync(&q1, "M", Body::plain()); }));
+        // early wake-ups while a pool thread is still there to answer them
+        match wake {
+            0 => {}
+            1 => {
+                g.poke();
+                g.poke();
+            }
+            _ => g.poke(),
+        }
+        rt::quiesce();
+        for i in 0..pool {
+            let b = w.raw();
+            w.desync(&b, &format!("PIN{}", i), Body::blocking(&bg));
+            pins.push(b);
+        }
+        rt::quiesce();
+        // the real event: only the thread blocked in sync can run the queue now
+        g.open();
+        for (i, h) in hs.drain(..).enumerate() {
+            join(h, &format!("ctx{}", i));
+        }
+        bg.open();
+    } else if ctx == 1 {
         // a thread inside sync runs the queue (park / unpark path)
         let (w1, q1) = (w.clone(), q.clone());
         hs.push(spawn(move || { w1.sync(&q1, "M", Body::plain()); }));
@@ -197,6 +227,7 @@ fn wake_ctx(cfg: &Cfg) {
     }
     // environment: the external event
     match wake {
+        _ if ctx == 3 => {}
         0 => g.open(),
         1 => {
             g.poke();
@@ -211,7 +242,9 @@ fn wake_ctx(cfg: &Cfg) {
     for (i, h) in hs.into_iter().enumerate() {
         join(h, &format!("ctx{}", i));
     }
-    finish(&w, &[&q], pool);
+    let mut objs: Vec<&Obj> = vec![&q];
+    objs.extend(pins.iter());
+    finish(&w, &objs, pool);
     if g.polls() == 0 {
         rt::violation("WAKE-LOST the gated operation was never polled".into());
     }
